@@ -315,6 +315,11 @@ def link_case(draw):
         target = draw(safe_pat(st.sampled_from(all_n)))
         spelling = draw(st.sampled_from(["explicit", "empty", "auto"]))
         links.append({"path": parts, "target": target, "spelling": spelling})
+    if draw(st.booleans()):
+        # the same destination a second time (each occurrence is a link of its own: own reference, own warnings)
+        again = dict(draw(st.sampled_from(links)))
+        again["spelling"] = draw(st.sampled_from(["explicit", "empty", "auto"]))
+        links.insert(draw(st.integers(0, len(links))), again)
     return {"inventories": invs, "links": links, "aliases": aliases}
 
 
